@@ -278,7 +278,7 @@ func isRace(id string) bool { return id == "C13" }
 // usesLockSeam: checks (besides C13, which adds the race detector) that are built from the
 // scratch copy with rewritten lock calls, so that goroutines the program under test starts itself
 // contend for its locks inside the kernel.
-func usesLockSeam(id string) bool { return id == "C03" }
+func usesLockSeam(id string) bool { return id == "C03" || id == "C17" || id == "C19" }
 
 // usesDialSeam: checks whose scenarios include go-mail's default dialers (net.Dialer / tls.Dialer
 // rewritten to the simulated network in a scratch copy, see instrument).
